@@ -446,7 +446,6 @@ LEVEL_NOTE = ("Trusted: Lean kernel + propext/Classical.choice/Quot.sound; the h
 CORRESPONDENCE_ONLY = [
     "min_element", "max_element", "minmax_element",
     "is_permutation", "includes",
-    "sort", "gnome_sort", "bubble_sort", "exchange_sort", "nth_element", "partial_sort", "stable_sort", "insertion_sort",
     "merge_sort", "inplace_merge", "set_difference", "set_intersection", "set_symmetric_difference", "set_union"]
 # algorithms whose model is proved equal to the spec for all inputs (TetlProofs/C06/Props.lean)
 WITH_THEOREM = [
@@ -459,5 +458,7 @@ WITH_THEOREM = [
     "merge", "stable_partition", "inner_product", "transform_reduce (binary)", "adjacent_difference",
     "copy", "move", "copy_backward", "move_backward", "shift_left (both branches)", "shift_right", "unique_copy", "unique",
     "adjacent_find", "is_sorted_until", "is_sorted", "partition", "transform (binary)", "binary_search", "partial_sum",
-    "search", "find_end", "search_n"]
+    "search", "find_end", "search_n",
+    "sort", "gnome_sort (incl. termination)", "nth_element", "partial_sort", "bubble_sort", "exchange_sort",
+    "stable_sort", "insertion_sort (stability)"]
 UNPROVED_OBSERVED = ["complexity requirements of the standard (not part of the property; partition_point is linear here)"]
